@@ -15,6 +15,24 @@ type Decoder struct {
 	// eof is set when the input ended before a FIN frame was found.
 	// From then on nextFrame() keeps returning FIN so that every decode loop terminates.
 	eof bool
+	// depth is the nesting level of the expression / statement being decoded, see enter()
+	depth int
+}
+
+// The decoder is recursive. Input which nests frames endlessly must end in an error,
+// not in an overflow of the goroutine stack which could not be recovered
+const maxDecodeDepth = 10000
+
+func (c *Decoder) enter() error {
+	c.depth++
+	if c.depth > maxDecodeDepth {
+		return errors.New("frames are nested too deeply")
+	}
+	return nil
+}
+
+func (c *Decoder) leave() {
+	c.depth--
 }
 
 func NewDecoder(r io.Reader) *Decoder {
@@ -129,6 +147,11 @@ func (c *Decoder) Decode() ([]ast.Statement, error) {
 }
 
 func (c *Decoder) decode(frame *Frame) (ast.Statement, error) {
+	if err := c.enter(); err != nil {
+		return nil, err
+	}
+	defer c.leave()
+
 	switch frame.Type() {
 	// Declarations
 	case ACL_DECLARATION:
